@@ -44,11 +44,12 @@ def run(res, replay=None):
             for v in iv["verts"]:
                 far = max(far, math.sqrt(sum((v["loc"][k] - g[k]) ** 2 for k in range(dim))))
             ptol = max(100 * max(tol["eps"][:dim]), 10 * tol["rel"] * lmax)
-            if not (abs(sr - ex) <= 2 * ptol):
-                res.violation("C16:safety-radius-value", f"cell {gi}: safety radius {sr} but twice the distance to the farthest point of the exact cell is {ex}",
+            # the property is a lower bound (a larger radius is merely conservative)
+            if not (sr >= ex - 2 * ptol):
+                res.violation("C16:safety-radius-value" + geo.mismatch_class(rec), f"cell {gi}: safety radius {sr} is smaller than twice the distance {ex} to the farthest point of the exact cell",
                               dict(ctx, cell=gi, impl=sr, exact=ex))
             elif not (sr >= 2 * far * (1 - 1e-12) - 1e-300):
-                res.violation("C16:safety-radius-small", f"cell {gi}: safety radius {sr} < 2 x distance {far} to its farthest vertex", dict(ctx, cell=gi))
+                res.violation("C16:safety-radius-small" + geo.mismatch_class(rec), f"cell {gi}: safety radius {sr} < 2 x distance {far} to its farthest vertex", dict(ctx, cell=gi))
         # metamorphic inputs: a few per record (non-periodic and periodic alike)
         n = len(inp["gens"])
         if inp.get("mask") is None and n >= 2 and len(meta_inputs) < (40 if tier == "quick" else 400):
@@ -85,7 +86,7 @@ def run(res, replay=None):
         cf = os.path.join(wd, "meta.cases")
         with open(cf, "w") as f:
             for inp in meta_inputs:
-                f.write(T.case_line(inp, 1 | 2) + "\n")
+                f.write(T.case_line(inp, 1 | 2 | 8) + "\n")
         rc, impl, _ = C.run_impl(C.build_harness("debug"), cf, os.path.join(wd, "meta.out"))
         for j, (k_in, gi, nadd) in enumerate(meta_info):
             o2 = impl.get(j)
@@ -93,7 +94,7 @@ def run(res, replay=None):
             ctx = {"input": T.inp_json(meta_inputs[j]), "cell": gi, "added": nadd}
             res.count("metamorphic-add-outside")
             if o2 is None or "panic" in o2:
-                res.violation("panic:" + ("no-suitable-vertex" if "No suitable" in str((o2 or {}).get("panic")) else "other"), f"panicked after adding far generators: {(o2 or {}).get('panic')}", ctx)
+                res.violation("panic:" + geo.panic_signature(o2, meta_inputs[j]), f"panicked after adding far generators: {(o2 or {}).get('panic')}", ctx)
                 continue
             c1, c2 = base["vor"]["cells"][gi], o2["vor"]["cells"][gi]
             res.nontriv(("meta", k_in, gi))
